@@ -26,6 +26,9 @@ import (
 //go:linkname verifReseed runtime.verifReseed
 func verifReseed(seed uint64, on bool) uint64
 
+//go:linkname verifSetWake runtime.verifSetWake
+func verifSetWake(permille uint32)
+
 //go:linkname verifDraws runtime.verifDraws
 func verifDraws() uint64
 
@@ -95,6 +98,7 @@ func TestSim(t *testing.T) {
 		rtSeed = uint64(v)
 	}
 	verifReseed(rtSeed, true)
+	verifSetWake(uint32(spec.Wake))
 	k.NoSync = spec.P("race", "") == "1"
 	synctest.Test(t, func(t *testing.T) {
 		w := k.Boot(spec)
